@@ -559,9 +559,30 @@ class Machine:
             r = lo if v <= lo else hi if v >= hi else int(v)
             return r & ((1 << tb) - 1)
         if kind == "FloatToFloat": return v
-        if kind in ("PointerCoercion", "Transmute", "PtrToPtr", "PointerExposeProvenance", "PointerWithExposedProvenance", "Subtype"):
+        if kind == "PointerExposeProvenance":
+            return self.address_of(v)
+        if kind in ("PointerCoercion", "Transmute", "PtrToPtr", "PointerWithExposedProvenance", "Subtype"):
             return v
         raise Unsupported(f"cast {kind} {from_ty}->{to_ty}")
+
+    def address_of(self, v):
+        """pointer -> usize: a distinct, deterministic integer per storage slot (first-seen numbering; only equality and
+        a fixed arbitrary order are meaningful, as for real addresses)"""
+        while isinstance(v, Ref) and isinstance(v.cont[v.key] if self._has(v) else None, Ref): v = v.get()
+        if not hasattr(self, "_addrs"): self._addrs, self._addr_keep = {}, []
+        if isinstance(v, Ref): key = (id(v.cont), v.key if isinstance(v.key, (int, str)) else id(v.key)); keep = v.cont
+        else: key = (id(v), 0); keep = v
+        a = self._addrs.get(key)
+        if a is None:
+            a = self._addrs[key] = 0x10000 + 64 * len(self._addrs)
+            self._addr_keep.append(keep)
+        return a
+
+    def _has(self, r):
+        try:
+            r.cont[r.key]; return True
+        except Exception:
+            return False
 
     def binop(self, op, a, b, ty):
         if isinstance(a, Agg) and a.ty != "tuple" and op in ("Eq", "Ne"):      # field-less enum compare
@@ -713,7 +734,8 @@ class Machine:
 
     def call_value(self, f, args):
         """call a callable *value* with a python list of args"""
-        if isinstance(f, Ref): f = f.get()
+        while isinstance(f, (Ref, BoxObj)):
+            f = f.get() if isinstance(f, Ref) else f.fields[0]
         if isinstance(f, PyFn): return f.f(self, *args)
         if isinstance(f, Closure):
             fn = self.mod.get(f.name)
